@@ -271,6 +271,28 @@ static void ros_oracle(const RosCase& cs, const mocks::Shared& sh, const micm::S
           out.tok("ORACLE_REPEATED_REJECTION_CUT");
         if (ok && rej_last && Hs[k + 1] > Hs[k] * (1 + tol))
           out.tok("ORACLE_GROWTH_RIGHT_AFTER_REJECTION");
+        // the controller formula, wherever no clipping (h_min, h_max, remaining interval) and no fixed cut applies
+        {
+          const double ftol = 1e-7;
+          const double fac = std::min(
+              cs.params.factor_max_,
+              std::max(cs.params.factor_min_, cs.params.safety_factor_ / std::pow(errs[k], 1.0 / cs.params.estimator_of_local_order_)));
+          double raw = Hs[k] * fac;
+          if (!ok && !rej_more)
+          {
+            if (std::fabs(Hs[k + 1] - raw) > ftol * Hs[k])
+              out.tok("ORACLE_STEP_NOT_CONTROLLER_FORMULA");
+          }
+          else if (ok)
+          {
+            if (rej_last)
+              raw = std::min(raw, Hs[k]);
+            const double remaining = cs.time_step - (t + Hs[k]);
+            if (raw > cs.params.h_min_ * (1 + ftol) && raw < h_max * (1 - ftol) && raw < remaining * (1 - ftol) &&
+                std::fabs(Hs[k + 1] - raw) > ftol * std::max(raw, Hs[k]))
+              out.tok("ORACLE_STEP_NOT_CONTROLLER_FORMULA");
+          }
+        }
       }
       if (ok)
       {
@@ -501,6 +523,82 @@ static void be_case(Toks& tk, Out& out, std::size_t ncells, std::size_t nspec)
         out.tok("ORACLE_BE_MATRIX_NOT_I_OVER_H_MINUS_J");
       // the residual handed to the solver uses the same H: rhs = f(y) - (y - yn)/H ; yn unknown to the
       // harness only through the trace, so the check is on the first iteration of a step (y == yn): rhs == f(y)
+    }
+  }
+  // ---- oracle: the step-size bookkeeping, replayed from what crossed the two policies ----
+  // Every Factor shows the H in use (shift = 1/H); every Solve shows the Newton update; the convergence test is
+  // the library's own IsConverged.  The H in the matrix must be the one the configured controller prescribes
+  // (h_start clipped to the interval, reduction list after a failed step, doubling after two successes, never
+  // past the end of the interval), and the time reported must be the sum of the H of the steps taken.
+  if (tame)
+  {
+    std::vector<double> alphas;
+    std::vector<const mocks::Shared::Ev*> fs, ss;
+    for (const auto& ev : sh->events)
+    {
+      if (ev.kind == 'F')
+        fs.push_back(&ev);
+      if (ev.kind == 'S')
+        ss.push_back(&ev);
+      if (ev.kind == 'L')
+        alphas.push_back(ev.a[0] + (sh->P[0] + fs.back()->a[0] / 4.0));
+    }
+    if (fs.size() == alphas.size() && ss.size() == alphas.size())
+    {
+      double Hc = params.h_start_ == 0.0 ? time_step : std::min(params.h_start_, time_step);
+      double t = 0.0, t_matrix = 0.0;
+      std::size_t it = 0, n_succ = 0, n_fail = 0;
+      bool mismatch = false, done = false;
+      const std::size_t max_iter = params.max_number_of_steps_;
+      for (std::size_t k = 0; k < alphas.size() && !done; ++k)
+      {
+        const double Hm = 1.0 / alphas[k];
+        if (std::fabs(Hm - Hc) > 1e-9 * std::max(Hm, Hc))
+          mismatch = true;
+        // the iterate after this Newton update
+        DM ynew(ncells, nspec, 0.0), delta(ncells, nspec, 0.0);
+        for (std::size_t c = 0; c < ncells; ++c)
+          for (std::size_t s2 = 0; s2 < nspec; ++s2)
+          {
+            delta[c][s2] = ss[k]->b[c * nspec + s2];
+            ynew[c][s2] = std::max(0.0, fs[k]->a[c * nspec + s2] + ss[k]->b[c * nspec + s2]);
+          }
+        bool converged = false;
+        if (it++ != 0)
+          converged = micm::BackwardEuler<mocks::MockRates, LS>::IsConverged(
+              params, delta, ynew, state.absolute_tolerance_, state.relative_tolerance_);
+        if (!converged && it < max_iter)
+          continue;
+        // the step ends here
+        it = 0;
+        if (!converged)
+        {
+          n_succ = 0;
+          if (n_fail >= params.time_step_reductions_.size())
+          {
+            t += Hc;
+            t_matrix += Hm;
+            done = true;
+          }
+          else
+            Hc *= params.time_step_reductions_[n_fail++];
+        }
+        else
+        {
+          t += Hc;
+          t_matrix += Hm;
+          if (++n_succ >= 2)
+          {
+            n_succ = 0;
+            Hc *= 2.0;
+          }
+        }
+        Hc = std::min(Hc, time_step - t);
+      }
+      if (mismatch)
+        out.tok("ORACLE_BE_STEP_SIZE_IN_MATRIX_NOT_AS_CONFIGURED");
+      else if (std::fabs(t_matrix - result.final_time_) > 1e-9 * std::max(1.0, time_step))
+        out.tok("ORACLE_BE_TIME_ADVANCE_NOT_THE_H_IN_THE_MATRIX");
     }
   }
   if (result.stats_.function_calls_ != nF || result.stats_.jacobian_updates_ != nF || result.stats_.decompositions_ != nL ||
